@@ -303,3 +303,22 @@ func verifLemmaSolexaEncDec(q Qsolexa) Qsolexa { return Solexa.DecodeToQsolexa(q
 //@ func (Alphabet).IndexOf
 //@   pure
 //@   ensures result == lidx(self, arg0)
+
+// ---- Columns as a Slice (C07: Truncate of column-stored alignments) ----
+// MakeRows gives every column of the receiver fresh storage of the requested size and returns the receiver.
+//@ func (Columns).MakeRows
+//@   property C07
+//@   requires 0 <= len && len <= cap
+//@   ensures [same]    typeis(result, Columns) && result.(Columns) == lc
+//@   ensures [columns] forall i int :: 0 <= i && i < len(lc) ==> len(lc[i]) == len && fresh(lc[i])
+//@   assigns lc[*], fresh
+//@   loop 1 invariant 0 <= idx && idx <= len(lc) && forall i int :: 0 <= i && i < idx ==> len(lc[i]) == len && fresh(lc[i])
+
+// Copy copies letters column by column into the receiver's existing columns (thin contract: frame and count sign).
+//@ func (Columns).Copy
+//@   property C07
+//@   requires typeis(a, Columns)
+//@   ensures result >= 0
+//@   assigns lc[*][*]
+//@   loop 1 assigns lc[*][*]
+//@   loop 1 invariant 0 <= idx && n >= 0 && lc == old(lc) && forall i int :: 0 <= i && i < len(lc) ==> lc[i] == old(lc[i])
